@@ -362,8 +362,11 @@ int32_t tls13DecryptTicket(ssl_t *ssl,
     {
         goto out_illegal_parameter;
     }
+    /* The tag ends the ticket: bytes after it would not be authenticated. */
     if (encStateLen < 1 ||
-            !psParseCanRead(&encStateBuf, encStateLen + TLS_GCM_TAG_LEN))
+            !psParseCanRead(&encStateBuf, encStateLen + TLS_GCM_TAG_LEN) ||
+            (psSizeL_t)(ticketEnd - encStateBuf.buf.start) !=
+            encStateLen + TLS_GCM_TAG_LEN)
     {
         psTrace("Decrypted ticket too short\n");
         goto out_illegal_parameter;
